@@ -9,6 +9,9 @@ CHECKS = {
  "C18": (EX, "bounded exhaustive enumeration of (normalizer class x parameter alphabet x data grid) and of the full pipeline product, each case judged against closed-form reference model (mpmath)",
          "Every element of a finite product space built around each branch boundary of the code (lambda special values and their isclose zones, both signs, range ends, NaN, scalar/list/2-D inputs; Field/SRF/Krige/CondSRF x mesh x mean x trend x normalizer) is executed and compared with formulas written from the documentation; nothing sampled.",
          "real arguments are represented by grids; defects strictly between grid points and away from branch boundaries are outside the bound; mpmath and the docstring formulas are trusted", "5/C18"),
+ "C14": (MC, "explicit-state breadth-first search over setter-operation histories on real CovModel objects; every reached state compared with a reference state machine (documented update rules + documented bounds) and with a freshly constructed model (differential oracle)",
+         "All sequences of setter operations up to the depth bound (quick 2, thorough 3) from every (class x plain/temporal/latlon/latlon+temporal x dim) start state are executed on the real objects; states are de-duplicated by the canonical reference state; each history is replayed from a fresh object, so every trace is validated against the implementation.",
+         "operation alphabet and depth bound as listed in the evidence file; legality = documented default bounds or custom bounds; operations outside the alphabet are not explored", "5/C14"),
 }
 PENDING = {}
 def main():
